@@ -404,7 +404,8 @@ class MProcess(QOperation):
 
     def calc_proj_eq_constraint(self) -> "MProcess":
         dim = self.composite_system.dim
-        hss = copy.deepcopy(self.hss)
+        # copy each element: deepcopy would keep an array that occurs twice in hss shared
+        hss = [hs.copy() for hs in self.hss]
 
         # calc new var
         vec = np.zeros((dim ** 2))
